@@ -113,10 +113,15 @@ impl Group for HbGroup {
                 // run until the session closes or the horizon
                 let mut closed_at: Option<u64> = None;
                 let deadline = t0 + Duration::from_millis(horizon);
+                // every event of a case lies on the 10 ms grid (+3 answers, +5/+7 slow flushes): looking once per slot,
+                // at its 9th millisecond, observes the slot in which the session was closed
                 loop {
                     if node.session.is_closed() { closed_at = Some((tokio::time::Instant::now() - t0).as_millis() as u64); break; }
-                    if tokio::time::Instant::now() >= deadline { break; }
-                    tokio::time::sleep(Duration::from_millis(1)).await;
+                    let now = tokio::time::Instant::now();
+                    if now >= deadline { break; }
+                    let el = (now - t0).as_millis() as u64;
+                    let next = if el % 10 < 9 { el - el % 10 + 9 } else { el + 10 };
+                    tokio::time::sleep_until(t0 + Duration::from_millis(next)).await;
                 }
                 peer.abort();
                 let answers = answered_at.lock().unwrap().clone();
@@ -132,7 +137,7 @@ impl Group for HbGroup {
                         let last = answers.iter().copied().max().unwrap_or(0);
                         let bound = last + t + i + 2 + flush.unwrap_or(0);
                         match closed_at {
-                            Some(c) if c <= bound => {}
+                            Some(c) if c / 10 * 10 <= bound => {}
                             Some(c) => out.oracle.push(OracleFail { sig: "dead_session_closed_late/liveness_monitor".into(), detail: format!("interval {i}, timeout {t}, silent from request {sf}: last answer at {last} ms, closed at {c} ms > {bound}") }),
                             None => if horizon > bound { out.oracle.push(OracleFail { sig: "dead_session_not_closed/liveness_monitor".into(), detail: format!("interval {i}, timeout {t}, silent from request {sf}: last answer at {last} ms, still open at {horizon} ms") }) },
                         }
